@@ -169,13 +169,13 @@ func executeProgramWiring(c Case) (kind, detail string) {
 	time.Sleep(100 * time.Millisecond)
 
 	// greet: connect to a local listener, return the greeting line ("" if the connection ends
-	// or stays silent for 3 s)
+	// ; "timeout" if it stays silent for 20 s)
 	greet := func(port int, socksTo string) (string, net.Conn) {
 		conn, err := net.DialTimeout("tcp", fmt.Sprintf("127.0.0.1:%d", port), 5*time.Second)
 		if err != nil {
 			return "dial-error: " + err.Error(), nil
 		}
-		conn.SetDeadline(time.Now().Add(3 * time.Second))
+		conn.SetDeadline(time.Now().Add(20 * time.Second))
 		if socksTo != "" {
 			host, portS, _ := net.SplitHostPort(socksTo)
 			var pn int
@@ -194,7 +194,10 @@ func executeProgramWiring(c Case) (kind, detail string) {
 				return "", nil
 			}
 		}
-		line, _ := bufio.NewReader(conn).ReadString('\n')
+		line, rerr := bufio.NewReader(conn).ReadString('\n')
+		if ne, ok := rerr.(net.Error); ok && ne.Timeout() {
+			line = "timeout"
+		}
 		conn.SetDeadline(time.Time{})
 		return line, conn
 	}
@@ -223,6 +226,9 @@ func executeProgramWiring(c Case) (kind, detail string) {
 				conn.Close()
 			}
 			want := route(c.Table, cl.list, name)
+			if line == "timeout" {
+				return "inconclusive", fmt.Sprintf("no answer within 20 s of real time on the local listener for %q", name)
+			}
 			dialled := ""
 			for n := range targets {
 				for i := before[n]; i < after[n]; i++ {
